@@ -562,6 +562,14 @@ def run(ctx):
                           dict(payload, key=k, stored=repr(v), viewed=repr(w)))
             if stored2 != stored or js_f != js_t:
                 F.add("reading under always_return_list=False changed the stored values", payload)
+            # the other read accessors are views of the same store: values(), iteration, len(), str()
+            for al2, items in ((True, stored), (False, viewed)):
+                with setting(al2):
+                    vals, it, n, txt = a.values(), list(iter(a)), len(a), str(a)
+                if vals != [v for _, v in items] or it != [k for k, _ in items] or n != len(items) \
+                        or txt != "\n".join("%s: %s" % (k, v) for k, v in items):
+                    F.add("values() / iteration / len() / str() disagree with items() under always_return_list=%s" % al2,
+                          dict(payload, items=repr(items), values=repr(vals), keys=repr(it), length=n))
             if any(isinstance(v, str) or (isinstance(v, list) and len(v) == 1) for k, v in stored):
                 res.nontriv(("ops", repr(ops), al))
         res.count("attributes_op_sequences")
